@@ -505,7 +505,7 @@ func run(c Case) kit.Result {
 		// The handler reports a failed stream in a header it documents as unreliable ("we suggest client always
 		// verify that the received CAR stream response is matching requested DAG selector"): the statement is about
 		// the content of the response, so the body is judged like any other; the case is only labelled.
-		classes = append(classes, "stream_error", "stream_error:"+se[strings.LastIndex(se, ": ")+1:])
+		classes = append(classes, "stream_error", "stream_error:"+strings.TrimSpace(se[strings.LastIndex(se, ": ")+1:]))
 	}
 	if origin != nil {
 		classes = append(classes, fmt.Sprintf("origin_requests:%d", len(origin.log)))
@@ -771,9 +771,9 @@ func TestProp(t *testing.T) { kit.All(t, spec) }
 
 // genProxy: the same trees and requests, served by a gateway that itself proxies a trustless gateway by CAR.
 func genProxy(t *rapid.T) Case {
+	retry := rapid.Bool().Draw(t, "retry") // drawn first: the two sub-checks then explore different trees
 	c := gen(t)
-	c.Backend = "car"
-	c.Retry = rapid.Bool().Draw(t, "retry")
+	c.Backend, c.Retry = "car", retry
 	return c
 }
 
